@@ -168,3 +168,17 @@ Theorem capabilities_structure_independent_of_host :
   forall segs h1 h2,
     shape (tokenize (fill segs (escape_html h1))) = shape (tokenize (fill segs (escape_html h2))).
 Proof. exact fill_escape_html_shape. Qed.
+
+(* Request.host / Request.host_url (mapproxy/request/base.py), for EVERY combination of Host, X-Forwarded-Host,
+   X-Forwarded-Proto, SERVER_NAME, SERVER_PORT (IPv6 literals, several colons, empty values included): the
+   index expressions host.split(':')[1] / [0] and host.split(',', 1)[0] are always in range - the code cannot
+   raise (None models the IndexError). *)
+Theorem host_never_raises : forall e, host e <> None.
+Proof. exact host_total. Qed.
+
+Theorem host_url_never_raises : forall e, host_url e <> None.
+Proof. exact host_url_total. Qed.
+
+(* the split used there loses nothing: joining the pieces with the separator gives the header value back *)
+Theorem split_join : forall c s, join_with c (split_on c s) = s.
+Proof. exact split_on_join. Qed.
